@@ -75,6 +75,7 @@ func thorough() bool { return tier() == "thorough" }
 func shard() int   { return envInt("VERIF_SHARD", 0) }
 func nshards() int { return envInt("VERIF_NSHARDS", 1) }
 
+// newWorker: t may be nil (fuzz targets keep their own *testing.T per input).
 func newWorker(t *testing.T, id string) *worker {
 	debug.SetPanicOnFault(true)
 	debug.SetMaxStack(256 << 20)
